@@ -12,12 +12,13 @@ ID = 'C14'
 LEVEL = 'exploration'
 RULE = ('documents = every sequence of <= n headings (book / article levels) where every unit carries a label and references to '
         'every other unit; variant "full" adds a labelled equation, a labelled enumerate item, a footnote, two index entries + '
-        '\\printindex and a two-entry bibliography with \\cite; x split-level {-10,0,1,2,3} x (toc-depth, toc-non-files) x base-url '
+        '\\printindex (variant "fullenv": a written-out theindex environment), two footnotes with the same text, a repeated forward '
+        'reference and a two-entry bibliography with \\cite; x split-level {-10,0,1,2,3} x (toc-depth, toc-non-files) x base-url '
         '{empty, http://h/p/} x theme. Checked on the files: every internal href names a produced file and an existing id, ids '
         'are unique per file, every \\ref shows the number of its target, every file is reachable from index.html. '
         'Non-trivial: >= 2 files and >= 1 cross-file reference.')
 ASSUMPTIONS = [
-    'an href is internal when, after removing the configured base-url, its path is empty or ends in .html',
+    'an href is internal when, after removing the configured base-url, it has no scheme and does not name a theme asset (.css, .js, image, font)',
     'expected numbers assume no counter manipulation (book/article formats as in C08)',
 ]
 
@@ -82,28 +83,33 @@ def document(cls, units, variant, numdepth=3):
     k = len(units)
     parts = []
     labels = ['lb%d' % i for i in range(k)]
-    if variant == 'full' and k >= 2:
+    if variant in ('full', 'fullenv') and k >= 2:
         labels[-1] = 'index'        # a file-producing unit whose label spells the static file name of the template
+    full = variant in ('full', 'fullenv')
     pre = 'bqaaz ' + ' '.join('\\ref{%s}' % l for l in labels[:2])
-    if variant == 'full':
+    if k:
+        pre += ' \\ref{%s}' % labels[0]        # a second forward reference to the same label
+    if full:
         pre += ' \\cite{ka}'
     parts.append(pre + '\n\n')
     for i, u in enumerate(units):
         s = '\\%s{tq%sz}\\label{%s} bq%sz ' % (u, chr(97 + i), labels[i], chr(98 + i))
         others = [l for j, l in enumerate(labels) if j != i][:2]
         s += ' '.join('\\ref{%s}' % l for l in others)
-        if variant == 'full':
+        if full:
             if i == 0:
-                s += ' x\\footnote{fqaz} \\begin{equation}a\\label{le0}\\end{equation}\\index{alpha}\\index{beta!sub} \\ref{li1}'
+                s += ' w\\footnote{fqsz} x\\footnote{fqaz} \\begin{equation}a\\label{le0}\\end{equation}\\index{alpha}\\index{beta!sub} \\ref{li1}'
             if i == min(1, k - 1):
                 s += ' \\begin{enumerate}\\item x\\item\\label{li1} y\\end{enumerate} \\ref{le0}\\pageref{lb0}\\index{alpha}'
             if i == k - 1:
-                s += ' z\\footnote{fqbz}\\index{\\_ua}\\index{\\_ub} \\begin{equation}c\\label{le9}\\end{equation}\\ref{le9}'
+                s += ' z\\footnote{fqbz} v\\footnote{fqsz}\\index{\\_ua}\\index{\\_ub} \\begin{equation}c\\label{le9}\\end{equation}\\ref{le9}'
         parts.append(s + '\n\n')
     tail = ''
-    if variant == 'full':
-        tail = '\\begin{thebibliography}{9}\\bibitem{ka} A\\bibitem{kb} B\\end{thebibliography}\\printindex'
-    pream = '\\usepackage{makeidx}\\makeindex' if variant == 'full' else ''
+    if full:
+        tail = '\\begin{thebibliography}{9}\\bibitem{ka} A\\bibitem{kb} B\\end{thebibliography}'
+        # the index either generated from the entries or written out as an environment (the contents of an .ind file)
+        tail += '\\printindex' if variant == 'full' else '\\begin{theindex}\\item alpha, 1\\item beta, 2\\end{theindex}'
+    pream = '\\usepackage{makeidx}\\makeindex' if full else ''
     return '\\documentclass{%s}%s\\begin{document}\\tableofcontents %s%s\\end{document}' % (cls, pream, ''.join(parts), tail)
 
 
@@ -133,8 +139,8 @@ def analyse(files, base, cls, units, variant, src, has_toc=True):
             elif re.match(r'^[a-z]+://', h):
                 continue
             path, _, frag = h.partition('#')
-            if path and not path.endswith('.html'):
-                continue
+            if path and re.search(r'\.(css|js|png|svg|gif|jpe?g|ico|woff2?)$', path):
+                continue        # assets of the theme; any other relative (or base-url) path must be a produced file
             target = path or fn
             if target not in files:
                 problems.append('%s: href %r names a file that was not produced' % (fn, href))
@@ -272,6 +278,10 @@ def run(tier, seed, rep):
         for units in c13.shapes('article', 2):
             if units:
                 blocks.append(('article', units, 'full', 'HTML5min', cfg_small))
+        for units in c13.shapes('book', 1) + [('chapter', 'section')]:
+            if units:
+                for theme in c13.THEMES:
+                    blocks.append(('book', units, 'fullenv', theme, cfg_small))
         for units in (('chapter', 'section', 'subsection'), ('section', 'subsection', 'subsubsection'),
                       ('chapter', 'subsection', 'subsubsection')):
             blocks.append(('book', units, 'full', 'HTML5', cfg_small))
@@ -281,8 +291,10 @@ def run(tier, seed, rep):
             for units in c13.shapes(cls, 3):
                 if not units:
                     continue
-                for variant in ('refs', 'full'):
+                for variant in ('refs', 'full', 'fullenv'):
                     for theme in c13.THEMES:
+                        if variant == 'fullenv' and len(units) == 3:
+                            continue
                         blocks.append((cls, units, variant, theme, cfg_all if len(units) <= 2 else cfg_small))
     blocks = core.rotate(blocks, seed)
     core.merge_all(run_block, blocks, rep, chunksize=1)
